@@ -358,9 +358,13 @@ def parse_race_logs(paths):
             key = ' <-> '.join(sorted('%s' % (top_user(f)[0]) for f in tops))
             files = [top_user(f)[1] for f in tops]
             golem = [('fogfish/golem' in f or f.startswith(REPO + '/')) for f in files]
+            # harness functions named callerOwns* play a caller writing to memory it owns (its own slice) after the
+            # library call it passed it to has returned: a library goroutine racing with that kept the argument
+            fns = [top_user(f)[0] for f in tops]
+            retained = len(golem) == 2 and any(golem) and any('callerOwns' in fn for fn, g in zip(fns, golem) if not g)
             reports.setdefault(key, dict(key=key, text=block.strip()[:6000], n=0,
                                          golem_only=all(golem) and len(golem) == 2,
-                                         golem_any=any(golem)))
+                                         golem_any=any(golem), retained=retained))
             reports[key]['n'] += 1
     return list(reports.values())
 
@@ -490,6 +494,9 @@ def run_property(pid, tier, seed, replay=None):
             continue
         if r['golem_only']:
             violations.append(dict(sig='%s/race/%s' % (pid, r['key']), desc='data race between golem frames: ' + r['key'], case=None, n=r['n'], stderr=r['text'], mode='race'))
+        elif r.get('retained'):
+            violations.append(dict(sig='%s/race/retained-argument/%s' % (pid, r['key']), desc='a library goroutine still reads the slice the caller passed, after the call returned and while the caller writes to its own slice: ' + r['key'],
+                                   case=None, n=r['n'], stderr=r['text'], mode='race'))
         else:
             inconclusive.append('race report touching harness frames (harness bug, not a verdict): ' + r['key'])
             vio_dir = os.path.join(ROOT, 'replays', pid)
